@@ -68,10 +68,10 @@ STREAMS = [1, 2, 3, 4, 5]
 class C19(Prop):
     id = "C19"
     props = "C19_Props"
-    coq_files = ("Base", "C19_Consts", "C19_Model", "C19_Spec", "C19_Proofs", "C19_Props")
+    coq_files = ("Base", "C19_Consts", "C19_Model", "C19_Spec", "C19_Proofs", "C19_StreamProofs", "C19_Props")
     models = ("C19_Model",)
     packages = {"cc": "internal/app/connectconformance"}
-    kinds = {"c19.expand": "cc", "c19.sharp": "cc", "c19.wiring": "cc"}
+    kinds = {"c19.expand": "cc", "c19.sharp": "cc", "c19.wiring": "cc", "c19.stream": "cc", "c19.load": "cc"}
     consts = ("cc",)
     go_timeout = 1500
     rule = ("c19.expand: expandRequestData on single requests of the five padded request types x response-definition sizes "
@@ -85,12 +85,26 @@ class C19(Prop):
             "or trimmed) against the reference server started with the server limit, for unary/client/server/half-/full-duplex "
             "streams; responses (unary, and the second message of a server stream; zeros or incompressible) from an exact-size "
             "connect-go handler against the client limit given as the runner gives it; protocols x compressions sampled per seed "
-            "(quick) or in full (thorough). c19.wiring: a generated suite file with one size directive per offset through "
-            "parseTestSuites, newTestCaseLibrary, runTestCasesForServer and both reference peers; compared: request size and "
-            "the runner's verdict. non-trivial = padding changed, an error class other than range, or an RPC verdict")
+            "(quick) or in full (thorough). c19.stream: the limit is per message - client streams and half-/full-duplex bidi "
+            "streams of 2-3 request messages, each sized by expandRequestData to exactly the limit, with one of them at limit+1 "
+            "(or limit-1) at each position, sent to the reference server by the reference client and by a plain HTTP client "
+            "that declares the body length (Content-Length) or not (chunked / no length), over HTTP/1.1 and h2c, Connect, gRPC "
+            "and gRPC-Web, identity and gzip (all six compressions in the thorough tier); server streams and bidi streams of 2-3 "
+            "sized response messages from the exact-size handler to the reference client; compared: sizes, verdict, and the "
+            "index of the first rejected message where the receiver's progress is observable. "
+            "c19.wiring: a generated suite file with one size directive per offset through "
+            "parseTestSuites, newTestCaseLibrary, runTestCasesForServer and both reference peers, with and without "
+            "relies_on_message_receive_limit; compared: request size and the runner's verdict. "
+            "c19.load: generated suite files through parseTestSuites for every combination of relies_on_message_receive_limit x "
+            "mode x stream type x directive shape (none, all absent, exact, +1, mixed, unreachable, out of range, too many, "
+            "unpaddable message) and codec lists, plus random multi-case suites; compared: the error class and the index of the "
+            "failing test case, or per test case and message the same observables as c19.expand. "
+            "non-trivial = padding changed, an error class other than range, an RPC verdict, or a suite with a directive")
     trusted_base = ("Coq 8.16.1 kernel (vm_compute used, native_compute not)", "extraction (ExtrOcamlBasic only) + ocaml/driver.ml",
                     "vlib generators/comparator, Go overlay harness files (build the request messages, classify error texts into 4 tags, "
-                    "the exact-size response handler used as the reference client's peer, the generated suite file of c19.wiring)",
+                    "the exact-size response handler used as the reference client's peer, the plain HTTP client of c19.stream that "
+                    "envelopes/compresses the request messages itself and reads the end-of-stream status, the generated suite files "
+                    "of c19.wiring and c19.load)",
                     "modelled not verified: google.golang.org/protobuf (proto.Size, Any), connect-go WithReadMaxBytes - the latter only "
                     "compared with the specification `accepts` by live runs")
     assumptions = ("request_data is a proto3 bytes field with implicit presence and a field number < 16 in every padded request type "
@@ -101,18 +115,25 @@ class C19(Prop):
                   "length does, rejects only unreachable / out-of-range / unpaddable requests, never crashes and changes only padding "
                   "lengths, for all messages, existing paddings and offsets; the model is tied to expandRequestData by a differential "
                   "run on every check, and the sharpness of the receive limit is a specification compared with live runs of the real "
-                  "reference peers and of the runner's own path.")
+                  "reference peers and of the runner's own path. The limit is specified and exercised per message of a stream "
+                  "(several sized messages per RPC, body length declared or not), and the loader's decision which test cases get "
+                  "expanded is modelled and proved: for every suite (flag x mode x stream types x codecs) a marked case is expanded "
+                  "exactly or the load fails for a justified reason; compared with parseTestSuites on generated suite files.")
     level_note = ("Trusted: Coq kernel, extraction, OCaml driver, harness. Correspondence model/Go is sampled (windows around every "
                   "boundary), not proved. limit_sharp (`accepts`) is a specification that execution is compared with, not a theorem about "
                   "connect-go. Known finding wire-size-also-limited: connect-go applies the limit to the compressed envelope as well, so "
                   "'measured on the uncompressed size' holds only while the compressed form does not exceed the limit. Client-side "
                   "sharpness uses an exact-size connect-go handler as the peer of the real reference client, because the reference server "
-                  "echoes the request in every unary / first stream response and so cannot send a response sized to the byte.")
+                  "echoes the request in every unary / first stream response and so cannot send a response sized to the byte. "
+                  "Full-duplex response streams are exercised with acceptable messages only (connect-go's client drains the response "
+                  "after a message above the limit while a full-duplex peer waits for the next request).")
     technique = "Coq proof (fixed-point iteration on a step function, case split on varint classes); differential model-vs-Go; live RPC spec comparison"
 
     def nontrivial(self, case, res):
-        if case[0] in ("c19.sharp", "c19.wiring"):
+        if case[0] in ("c19.sharp", "c19.wiring", "c19.stream"):
             return res.startswith("(") and "657272" not in res
+        if case[0] == "c19.load":
+            return res.startswith("(") and any(len(tc[2]) > 0 for tc in case[4])
         if "657272" in res:                      # (err tag)
             return "72616e6765" not in res       # anything but "range"
         # some message's padding differs from what it had
@@ -132,6 +153,12 @@ class C19(Prop):
         if case[0] == "c19.wiring":
             return ("a message-size suite run through the runner's own path (parseTestSuites, library, server_runner, reference "
                     "peers) does not give the verdicts of the specification accepts(limit, size) = size <= limit")
+        if case[0] == "c19.stream":
+            return ("receive limit not sharp per message: a stream of several messages (declared or undeclared body length) is not "
+                    "accepted exactly when every message is within the limit, or does not fail at the first message above it")
+        if case[0] == "c19.load":
+            return ("parseTestSuites: a test case marked for expansion is neither expanded exactly as directed nor is the suite "
+                    "rejected for a justified reason (whatever the suite's other directives)")
         if case[0] == "c19.sharp":
             return "receive limit not sharp: live reference peers disagree with the specification accepts(limit, size) = size <= limit"
         return "expandRequestData differs from the proved model (exact padding or justified rejection, never a crash)"
@@ -192,6 +219,30 @@ class C19(Prop):
                     c = emit(single(m, m[4] + D + o))
                     if c:
                         yield c
+        # the final padding length at 2^7, 2^14, 2^21 +- 3 (and the sizes one off: gaps), every message type
+        for m in combos:
+            for nb in (2 ** 7, 2 ** 14):
+                for dn in range(-3, 4):
+                    for o in (-1, 0, 1):
+                        c = emit(single(m, m[4] + pad_size(nb + dn) + o))
+                        if c:
+                            yield c
+        big_combos = [msg(ty, k, ty == 4 and k > 0, n0) for ty in range(5) for k in ((-1, 20, 125) if quick else ks) for n0 in PAD0]
+        for m in big_combos:
+            for dn in range(-3, 4):
+                for o in (-1, 0, 1):
+                    c = emit(single(m, m[4] + pad_size(2 ** 21 + dn) + o))
+                    if c:
+                        yield c
+        # ... and the EXISTING padding at 2^21 +- 3: trimmed across the boundary, to just below it, topped up
+        for ty in range(5):
+            for n0 in (2 ** 21 - 3, 2 ** 21 - 1, 2 ** 21, 2 ** 21 + 3):
+                m = msg(ty, 20, ty == 4, n0)
+                for dn in range(-3, 4):
+                    for T in (m[4] + pad_size(2 ** 21 + dn), m[4] + pad_size(2 ** 14 + dn), m[4] + pad_size(n0) + dn):
+                        c = emit(single(m, T))
+                        if c:
+                            yield c
         # both ends of the admissible range of the target
         for m in rng.sample(combos, 20):
             for o in win:
@@ -277,6 +328,133 @@ class C19(Prop):
             for off in offs + ((-2, 2, 10) if not quick else ()):
                 yield ["c19.sharp", side, off, hv, p, c, st, f]
 
+        # ---- the limit is per message: several sized messages per RPC ----
+        # case: side (offs) sender httpVersion protocol compression streamType fill
+        #   side 0: requests; sender 0 = reference client, 1 = plain HTTP client without / 2 = with a declared body length
+        #   side 1: responses from the exact-size handler to the reference client (sender 0)
+        P2 = [[0, 0], [1, 0], [0, 1]]
+        P3 = [[0, 0, 0], [1, 0, 0], [0, 1, 0], [0, 0, 1], [-1, 0, 0]]
+        PATS = P2 + P3
+
+        def protos(hv):
+            return (1, 3) if hv == 1 else (1, 2, 3)
+
+        st_cases = []
+        if quick:
+            rot = [0]
+
+            def nxt(seq):
+                rot[0] += 1
+                return seq[rot[0] % len(seq)]
+            # client streams from a plain HTTP client: length declared or not x HTTP/1.1, h2c x identity, gzip
+            for sender in (1, 2):
+                for hv in (1, 2):
+                    for c in (1, 2):
+                        for pat in PATS:
+                            st_cases.append((0, pat, sender, hv, 1, c, 2, 0))
+                    for p in protos(hv)[1:]:                       # gRPC, gRPC-Web
+                        for pat in ([0, 0], [0, 1], [0, 0, 0], [0, 1, 0]):
+                            st_cases.append((0, pat, sender, hv, p, nxt((1, 2)), 2, 0))
+                    for pat in PATS:                               # half-duplex bidi
+                        st_cases.append((0, pat, sender, hv, nxt(protos(hv)), nxt((1, 2)), 4, 0))
+            for sender in (0, 1, 2):                               # full-duplex bidi (HTTP/2 only)
+                for pat in PATS:
+                    st_cases.append((0, pat, sender, 2, nxt((1, 2, 3)), nxt((1, 2)), 5, 0))
+            for st in (2, 4):                                      # the reference client as the sender
+                for hv in (1, 2):
+                    for pat in PATS:
+                        st_cases.append((0, pat, 0, hv, nxt(protos(hv)), nxt(COMPRESSIONS), st, 0))
+            for pat in ([0, 0, 0], [0, 0, 1]):                     # incompressible content, identity
+                for sender in (0, 1, 2):
+                    st_cases.append((0, pat, sender, rng.choice((1, 2)), 1, 1, 2, 1))
+            for st in (3, 4, 5):                                   # responses
+                for hv in (1, 2):
+                    if st == 5 and hv == 1:
+                        continue
+                    for pat in PATS:
+                        if st == 5 and max(pat) > 0:
+                            continue          # see the Go harness: connect-go's client drains, a full-duplex peer waits
+                        st_cases.append((1, pat, 0, hv, nxt(protos(hv)), nxt(COMPRESSIONS), st, 0))
+            st_cases.append((1, [0, 0, 1], 0, 2, 1, 1, 3, 1))
+        else:
+            pats = PATS + [[0, -1, 0], [0, 0, -1], [0, 0, 0, 0], [0, 0, 0, 1], [1, 1, 1], [0, 10, 0]]
+            for hv in (1, 2):
+                for p in protos(hv):
+                    for c in COMPRESSIONS:
+                        for st in (2, 4, 5):
+                            if st == 5 and hv == 1:
+                                continue
+                            for sender in (0, 1, 2):
+                                for pat in pats:
+                                    if sender == 0 and c > 2 and pat not in PATS:
+                                        continue
+                                    st_cases.append((0, pat, sender, hv, p, c, st, 0))
+                                if c == 1:
+                                    for pat in ([0, 0, 0], [0, 0, 1], [1, 0, 0]):
+                                        st_cases.append((0, pat, sender, hv, p, c, st, 1))
+                        for st in (3, 4, 5):
+                            if st == 5 and hv == 1:
+                                continue
+                            for pat in pats:
+                                if st == 5 and max(pat) > 0:
+                                    continue
+                                st_cases.append((1, pat, 0, hv, p, c, st, 0))
+                            if c == 1 and st != 5:
+                                st_cases.append((1, [0, 0, 1], 0, hv, p, c, st, 1))
+        for side, pat, sender, hv, p, c, st, f in st_cases:
+            yield ["c19.stream", side, list(pat), sender, hv, p, c, st, f]
+
+        # ---- the loader: which test cases of a suite file get expanded ----
+        # case: flag mode (codecs) ((streamType (msgs) (dirs))...)
+        TY_OF_STREAM = {0: 0, 1: 0, 2: 3, 3: 2, 4: 4, 5: 4}
+
+        def tc_shape(st, shape):
+            ty = TY_OF_STREAM[st]
+            n = 3 if st in (2, 4, 5) else 1
+            ms = [msg(ty, 14 if i == 0 else -1, ty == 4 and st == 5, 0 if i == 0 else 12) for i in range(n)]
+            b0 = ms[0][4]
+            if shape == "none":
+                ds = []
+            elif shape == "absent":
+                ds = [[] for _ in ms]
+            elif shape == "exact":
+                ds = [[0]] + [[] for _ in ms[1:]]
+            elif shape == "plus1":
+                ds = [[] for _ in ms[:-1]] + [[1]]
+            elif shape == "mixed":
+                ds = [[0]] + [[] for _ in ms[1:-1]] + ([[1]] if n > 1 else [])
+            elif shape == "all":
+                ds = [[-(i % 2)] for i in range(n)]
+            elif shape == "small":
+                ds = [[b0 + 40 - L]]
+            elif shape == "unreachable":
+                ds = [[b0 + 1 - L]]
+            elif shape == "range":
+                ds = [[-L - 1]]
+            elif shape == "toomany":
+                ds = [[] for _ in ms] + [[0]]
+            else:  # unpaddable: a message of the service without a padding field, with a directive
+                ms = ms + [msg(5, 9, False, 0)]
+                ds = [[] for _ in ms[:-1]] + [[0]]
+            return [st, ms, ds]
+
+        SHAPES = ["none", "absent", "exact", "plus1", "mixed", "all", "small", "unreachable", "range", "toomany", "unpaddable"]
+        for flag in (0, 1):
+            for mode in (0, 1, 2):
+                for st in (1, 2, 3, 4, 5):
+                    for shape in SHAPES:
+                        yield ["c19.load", flag, mode, [1], [tc_shape(st, shape)]]
+                # stream type left unspecified: not the loader's business either
+                yield ["c19.load", flag, mode, [1], [tc_shape(0, "exact")]]
+                for codecs in ([], [2], [1, 2], [2, 1], [1, 1], [0], [1, 3]):
+                    for shape in ("none", "absent", "small", "unreachable"):
+                        yield ["c19.load", flag, mode, codecs, [tc_shape(rng.choice((1, 2, 3, 4, 5)), shape)]]
+        for _ in range(150 if quick else 3000):                    # suites of several test cases
+            cases = [tc_shape(rng.choice((1, 2, 3, 4, 5)),
+                              rng.choice(SHAPES[:7] * 4 + SHAPES[7:])) for _ in range(rng.randint(2, 4))]
+            codecs = rng.choice([[1]] * 8 + [[1, 2], []])
+            yield ["c19.load", rng.randrange(2), rng.randrange(3), codecs, cases]
+
         # ---- the runner's own path: suite file -> parseTestSuites -> library -> server_runner -> peers ----
         # case: (offs) httpVersion protocol compression streamType
         if quick:
@@ -291,6 +469,10 @@ class C19(Prop):
             wo = [-130, -2, -1, 0, 1, 2, 10]
         for hv, p, c, st in w:
             yield ["c19.wiring", wo, hv, p, c, st]
+        # the same path for a suite that does not set relies_on_message_receive_limit (6th argument 0): the runner
+        # hands the limit to the server all the same, and the requests must be expanded all the same
+        for hv, p, c, st in (w[:2] if quick else w[::3]):
+            yield ["c19.wiring", wo, hv, p, c, st, 0]
 
 
 PROP = C19()
